@@ -289,16 +289,7 @@ def write_output_document(
     args: argparse.Namespace, log: ConsolePrinter, yaml_editor: YAML,
     docs: List[Merger]
 ) -> None:
-    """Save a backup of the overwrite file, if requested."""
-    if args.backup:
-        backup_file = args.overwrite + ".bak"
-        log.verbose(
-            "Saving a backup of {} to {}."
-            .format(args.overwrite, backup_file))
-        if exists(backup_file):
-            remove(backup_file)
-        copy2(args.overwrite, backup_file)
-
+    """Write the merged document(s) to the output file or STDOUT."""
     document_is_json = (
         docs[0].prepare_for_dump(yaml_editor, args.output)
         is OutputDocTypes.JSON)
@@ -308,57 +299,52 @@ def write_output_document(
         doc.prepare_for_dump(yaml_editor, args.output)
         dumps.append(doc.data)
 
-    if args.output:
-        with open(args.output, 'w', encoding='utf-8') as out_fhnd:
-            if document_is_json:
-                if len(dumps) > 1:
-                    for dump in dumps:
-                        if args.json_indent > -1:
-                            print(
-                                json.dumps(Parsers.jsonify_yaml_data(dump),
-                                           indent=args.json_indent),
-                                file=out_fhnd)
-                        else:
-                            print(
-                                json.dumps(Parsers.jsonify_yaml_data(dump)),
-                                file=out_fhnd)
-                else:
-                    if args.json_indent > -1:
-                        json.dump(
-                            Parsers.jsonify_yaml_data(
-                                dumps[0]), out_fhnd, indent=args.json_indent)
-                    else:
-                        json.dump(
-                            Parsers.jsonify_yaml_data(dumps[0]), out_fhnd)
-            else:
-                if len(dumps) > 1:
-                    yaml_editor.explicit_end = True  # type: ignore
-                    yaml_editor.dump_all(dumps, out_fhnd)
-                else:
-                    yaml_editor.dump(dumps[0], out_fhnd)
-    else:
-        if document_is_json:
-            if len(dumps) > 1:
-                for dump in dumps:
-                    if args.json_indent > -1:
-                        print(
-                            json.dumps(Parsers.jsonify_yaml_data(dump),
-                                       indent=args.json_indent))
-                    else:
-                        print(json.dumps(Parsers.jsonify_yaml_data(dump)))
-            else:
+    # Render everything before touching any file:  opening the destination
+    # for writing empties it and the backup replaces an older one, so a
+    # document which cannot be serialized must fail first.
+    out_fhnd = StringIO()
+    if document_is_json:
+        if len(dumps) > 1:
+            for dump in dumps:
                 if args.json_indent > -1:
-                    json.dump(
-                        Parsers.jsonify_yaml_data(dumps[0]), sys.stdout,
-                        indent=args.json_indent)
+                    print(
+                        json.dumps(Parsers.jsonify_yaml_data(dump),
+                                   indent=args.json_indent),
+                        file=out_fhnd)
                 else:
-                    json.dump(Parsers.jsonify_yaml_data(dumps[0]), sys.stdout)
+                    print(
+                        json.dumps(Parsers.jsonify_yaml_data(dump)),
+                        file=out_fhnd)
         else:
-            if len(dumps) > 1:
-                yaml_editor.explicit_end = True  # type: ignore
-                yaml_editor.dump_all(dumps, sys.stdout)
+            if args.json_indent > -1:
+                json.dump(
+                    Parsers.jsonify_yaml_data(
+                        dumps[0]), out_fhnd, indent=args.json_indent)
             else:
-                yaml_editor.dump(dumps[0], sys.stdout)
+                json.dump(
+                    Parsers.jsonify_yaml_data(dumps[0]), out_fhnd)
+    else:
+        if len(dumps) > 1:
+            yaml_editor.explicit_end = True  # type: ignore
+            yaml_editor.dump_all(dumps, out_fhnd)
+        else:
+            yaml_editor.dump(dumps[0], out_fhnd)
+
+    # Save a backup of the overwrite file, if requested (and there is one)
+    if args.backup and exists(args.overwrite):
+        backup_file = args.overwrite + ".bak"
+        log.verbose(
+            "Saving a backup of {} to {}."
+            .format(args.overwrite, backup_file))
+        if exists(backup_file):
+            remove(backup_file)
+        copy2(args.overwrite, backup_file)
+
+    if args.output:
+        with open(args.output, 'w', encoding='utf-8') as dest_fhnd:
+            dest_fhnd.write(out_fhnd.getvalue())
+    else:
+        sys.stdout.write(out_fhnd.getvalue())
 
 def get_doc_mergers(
     log: ConsolePrinter, yaml_editor: YAML, config: MergerConfig,
